@@ -30,9 +30,10 @@ class Violation:
 
 
 class CaseResult:
-    __slots__ = ("violations", "foreign", "stats", "keys", "nontrivial", "inconclusive")
+    __slots__ = ("violations", "foreign", "stats", "keys", "nontrivial", "inconclusive", "sets")
 
     def __init__(self):
+        self.sets = {}  # name -> set of hashable observations whose DISTINCT count is reported in the evidence
         self.violations = []
         self.foreign = []  # (property, what)
         self.stats = collections.Counter()
@@ -127,8 +128,11 @@ class Agg:
         self.inconclusive = []
         self.evaluations = 0
         self.nontrivial_cases = 0
+        self.sets = {}
 
     def merge(self, other):
+        for k, v in other.sets.items():
+            self.sets.setdefault(k, set()).update(v)
         self.stats.update(other.stats)
         self.keys |= other.keys
         for s, v in other.violations.items():
@@ -189,6 +193,8 @@ def _work(arg):
             agg.stats.update(r.stats)
             for k in r.keys:
                 agg.keys.add(_key_hash(k))
+            for sn, sv in r.sets.items():
+                agg.sets.setdefault(sn, set()).update(_key_hash(x) for x in sv)
             if r.nontrivial:
                 agg.nontrivial_cases += 1
             for v in r.violations:
@@ -355,6 +361,7 @@ def _write_evidence(chk, agg, notes, wall, inconclusive=(), verdict="held", fres
         "exhaustive": bool(chk.exhaustive),
         "nontrivial_cases": agg.nontrivial_cases,
         "observed": dict(sorted(agg.stats.items())),
+        "distinct_observed": {k: len(v) for k, v in sorted(agg.sets.items())},
         "foreign_deviations": dict(agg.foreign.most_common(20)),
         "verdict": verdict,
         "inconclusive": list(inconclusive)[:20],
